@@ -92,13 +92,13 @@ void h_line_bbox(void) {
 // y0 + (x-x0)*dy/dx, so |y - ideal| <= 1  <=>  |(y-y0)*dx - (x-x0)*dy| <= |dx|   (integers; symmetric when y is the major axis)
 void h_line_dist(void) {
     line_case c; c.input(); c.run();
-    for (long i = 0; i < c.n; ++i) {
-        long px = c.buf[i].x - c.s.x, py = c.buf[i].y - c.s.y;
-        int lim = 4 * vp_param(0);
-        vp_assert(px >= -lim && px <= lim && py >= -lim && py <= lim, "line.point_near_end_points");   // keeps the products below in int range
-        int e = (int)py * (int)c.dx - (int)px * (int)c.dy;
-        vp_assert(e <= (int)c.major && -e <= (int)c.major, "line.within_one_pixel_of_segment");
-    }
+    long i = vp_range(0, (int)c.n - 1);      // one symbolic index = every written point
+    long px = c.buf[i].x - c.s.x, py = c.buf[i].y - c.s.y;
+    int lim = 4 * vp_param(0);
+    vp_assert(px >= -lim && px <= lim && py >= -lim && py <= lim, "line.point_near_end_points");   // keeps the products below in int range
+    vp_assume(px >= -lim && px <= lim && py >= -lim && py <= lim);
+    int e = (int)py * (int)c.dx - (int)px * (int)c.dy;
+    vp_assert(e <= (int)c.major && -e <= (int)c.major, "line.within_one_pixel_of_segment");
     c.done();
 }
 // apply_rasterizer on a view that is exactly the bounding box (pixel buffer of exactly (|dx|+1)*(|dy|+1) bytes): no access outside it
